@@ -38,6 +38,22 @@ Proof. intros g c Hg. apply (delete_consumer_inv g c Hg). Qed.
 Theorem c16_agree_createconsumer : forall g c, GInv g -> GInv (snd (g_create_consumer g c)).
 Proof. exact create_consumer_ginv. Qed.
 
+(** Administration touches exactly one group record: CREATE appends a new group that
+    satisfies the invariant, DESTROY removes that group only, every other command replaces
+    only the record of the group it names; so all groups of a stream satisfy the
+    invariant along every history. *)
+Theorem c16_admin_create :
+  forall gs gn, groups_ok gs -> alookup gn gs = None -> groups_ok (gs ++ [(gn, new_group)]).
+Proof. exact groups_ok_create. Qed.
+Theorem c16_admin_destroy :
+  forall gs gn, groups_ok gs -> groups_ok (aremove gn gs) /\ alookup gn (aremove gn gs) = None /\
+  forall gn', gn' <> gn -> alookup gn' (aremove gn gs) = alookup gn' gs.
+Proof. exact groups_ok_destroy. Qed.
+Theorem c16_admin_update :
+  forall gs gn g', groups_ok gs -> GInv g' -> groups_ok (aput gn g' gs) /\
+  forall gn', gn' <> gn -> alookup gn' (aput gn g' gs) = alookup gn' gs.
+Proof. exact groups_ok_update. Qed.
+
 (** XGROUP SETID keeps the agreement exactly when no pending ID lies above the new
     cursor (otherwise see [c16_setid_redelivery_refuted]) *)
 Theorem c16_agree_setid :
